@@ -46,6 +46,7 @@ THEOREMS = [
     "HedVerif.C01.issue_indices_in_tag",
     "HedVerif.C01.issue_char_index_in_text",
     "HedVerif.C01.Tiny.def_value_index_counterexample",
+    "HedVerif.C01.Tiny.is_definition_structural_counterexample",
 ]
 BUDGET = {"quick": 600, "thorough": 3000}
 
@@ -68,7 +69,7 @@ SPEC = {  # the property statement's table: injected rule violation -> published
     "misplaced_top_level": "TAG_GROUP_ERROR", "several_top_level": "TAG_GROUP_ERROR",
     "unbalanced": "PARENTHESES_MISMATCH", "empty_delimiter": "TAG_EMPTY", "empty_group": "TAG_EMPTY",
     "forbidden_character": "CHARACTER_INVALID", "stray_placeholder": "PLACEHOLDER_INVALID",
-    "undeclared_def": "DEF_INVALID", "wrong_def_value": "DEF_INVALID", "altered_def_expand": "DEF_EXPAND_INVALID",
+    "definition_copy_placeholder": "PLACEHOLDER_INVALID", "undeclared_def": "DEF_INVALID", "wrong_def_value": "DEF_INVALID", "altered_def_expand": "DEF_EXPAND_INVALID",
     "duplicated_unique": "TAG_NOT_UNIQUE"}
 # violations of these kinds belong to a known defect family (the duplicate check only compares neighbours of a sort that
 # does not bring equal elements together): narrow signature, listed in known_findings.json or fixed by C04's patch
@@ -170,6 +171,9 @@ FIXTURES = [
     "(Def/A, Offset)", "(Def/A, Inset)", "(Def/A, Onset, Offset)", "(Def/A, Onset), (Def/A, Onset)", "(Def/A, Onset, Delay/3 s, Delay/2 s)",
     "((Def-expand/A, (Red)), (Def-expand/B, (Blue, (Green))), Onset)", "(Def/A, (Def-expand/B, (Blue, (Green))), Onset)",
     "(Def/A, Onset, Red, (Blue))", "(Def/A, Onset, ())", "(Def/A, Inset, Blue)", "(Onset, Def/A, (Def/B))", "(Duration/3 s, (Def/A))",
+    "(Blue, (Label/#, Green)), (Definition/Newdef/#, (Label/#, Green))", "(Blue, (Green, Label/#)), (Definition/Newdef/#, (Label/#, Green))",
+    "(Definition/X/#, (Label/#)), (Label/#)", "(Label/#), (Definition/X/#, (Label/#))", "(Definition/X/#, (Label/#), (Label/#))",
+    "(Definition/X/#, ((Label/#))), ((Label/#))", "(Red, (Definition/X/#, (Label/#)))", "(definition/X/#, (Label/#))", "Definition/X/#, (Label/#)",
     "(),()", "((())),((()))", "(Red,()),(Red,())", "(Red,Blue),(Green),(Blue,Red)", "(Red,Blue),(Blue,Red)",
     "Label/ABC, Label/abc", "Label/ABC, Label/Abd, Label/abc", "Red, Blue, Red", "Red, Blue/Xx, Blue/xx", "Blue/Xx, Blue/Xx", "Label/a, Label/A", "Label/a, label/a",
 ]
@@ -700,6 +704,36 @@ class Gen:
         return text
 
 
+def definition_copy_cases(g, n):
+    """A copy of a definition's inner group OUTSIDE the definition, members in the same and in the other order, at the top
+    level and nested: only groups that are (inside) the Definition group are definition content (fix 5440313), so the
+    copy's placeholder is a stray one.  (Definitions themselves are not allowed in a validated string: that error is
+    reported as well and is part of the compared issue lists.)"""
+    v, rng = g.v, g.rng
+    if "Definition" not in g.by_short:
+        return []
+    out = []
+    cands = [i for i in g.val if not v.attrs[i]["uc"]] or g.val
+    for k in range(n):
+        a = g.form(rng.choice(cands)) + "/#"
+        b = g.form(rng.choice(g.noext))
+        inner = [a, b] if rng.random() < 0.5 else [b, a]
+        copy = list(inner) if k % 2 == 0 else list(reversed(inner))
+        if rng.random() < 0.3:
+            inner.append([g.form(rng.choice(g.noext))])
+            copy = copy + [list(inner[-1])] if k % 4 < 2 else [list(inner[-1])] + copy
+        name = g.new_term()
+        definition = [g.spell("Definition") + "/" + name + "/#", inner]
+        if rng.random() < 0.3:
+            definition.reverse()
+        outside = copy if rng.random() < 0.4 else [g.form(rng.choice(g.ext or g.plain)), copy]
+        top = [outside, definition] if rng.random() < 0.5 else [definition, outside]
+        if rng.random() < 0.3:
+            top.insert(rng.randint(0, len(top)), g.form(rng.choice(g.noext)))
+        out.append(g.render(top))
+    return out
+
+
 def value_class_cases(g):
     """[(text, expectation)]: every takes-value tag with >= 2 value classes and one tag of every value-class combination of the
     schema x VALUE_POOL; expectation = (accepted?, code an error must carry) from the reference reading, None for unit-class tags
@@ -879,7 +913,7 @@ def run_schema(ctx, name, n_grammar, n_fuzz, sweep):
         raise RuntimeError(f"the harness's own definitions are not accepted: {dd.issues}")
     check_attrs(ctx, v, schema)
     g = Gen(rng, v, pluralize.plural)
-    kinds = list(SPEC)
+    kinds = [k for k in SPEC if k != "definition_copy_placeholder"]    # generated by definition_copy_cases
     cases = []   # (stream, kind, text, ph, needs_dict)
     for k in range(n_grammar):
         ph = rng.random() < 0.5
@@ -909,6 +943,8 @@ def run_schema(ctx, name, n_grammar, n_fuzz, sweep):
                     continue
             for k in range(1, len(comps) + 1):
                 cases.append(("sweep", "conforming", "/".join(comps[-k:]) + tail, False, dd is not None))
+    for text in definition_copy_cases(g, max(8, n_grammar // 100)):
+        cases.append(("grammar", "definition_copy_placeholder", text, False, dd is not None))
     vc_expect = {}
     for text, i, exp, value in value_class_cases(g):
         vc_expect[text] = (i, exp, value)
